@@ -45,6 +45,30 @@ CHECKS["C18"] = {
             "bitflags! constants are modelled (glue.rs) and the macro text is re-checked on every run; HashSet::contains / key model per vstd + A-KEY.",
 }
 
+CHECKS["C11"] = {
+    "text": "Proof (Verus, unbounded) that every state-changing method of the real naming::Service (update_instance incl. all of its branches, remove_instance, "
+            "update_instance_healthy_invalid, update_perpetual_instance_healthy_valid, time_check) preserves wf: instance_size == |instances|, "
+            "healthy_instance_size == |healthy instances|, perpetual_host_set == non-ephemeral keys, stored key == address; get_service_info reports exactly those counts. "
+            "Whole-map postconditions say which key changed and that every other entry is unchanged.",
+    "note": "Service level only: NamingActor (service index, client reverse map, empty-service cleanup) is NOT under contract in this revision; get_all_instances "
+            "(iterator adapters) not under contract; TimeoutSet and Addr are shims; A-KEY for InstanceShortKey.",
+}
+CHECKS["C12"] = {
+    "text": "Proof (Verus, unbounded), partial scope: Service::remove_instance never removes an ephemeral instance owned by another client and otherwise removes exactly "
+            "the named key; Service::update_instance stores a new registration with the ip, port, ephemeral, enabled, weight, health and owner it was given and keeps the "
+            "gRPC owner when an HTTP re-registration hits a gRPC-owned ephemeral instance; every other entry unchanged.",
+    "note": "NOT decided: the query filters (get_all_instances, InstanceFilterUtils: iterator adapters + f32 protect threshold), NamingActor::remove_client_instance and the "
+            "gRPC/HTTP handlers. A defect there is not detected by this check.",
+}
+CHECKS["C13"] = {
+    "text": "Proof (Verus, unbounded) on the real Service::time_check / update_instance / update_instance_healthy_invalid / Instance::is_enable_timeout: persistent, gRPC "
+            "and cluster-owned instances are never touched by the heartbeat clock; an instance whose last heartbeat is newer than the threshold is neither marked unhealthy "
+            "nor removed; heartbeats (re)arm the health clock and marking unhealthy arms the removal clock; and, under the TimeoutSet model (A-TS), a silent instance whose "
+            "entry is due is marked unhealthy / removed by that time_check call.",
+    "note": "Liveness beyond one call (the 2 s driver, clock period), propagation to other nodes and do_refresh_process_range (iterator adapters) are not decided. "
+            "TimeoutSet semantics assumed (glue.rs, read off inner-mem-cache 0.1.7).",
+}
+
 NOT_APPLICABLE = {
     "C01": "equation between the states of seven actors across stop/restart; effects travel through Addr::send futures — no function-shaped contract can state it (DESIGN §6)",
     "C04": "crash points between file writes of several actors need a crash-Hoare logic over an external resource; neither Verus nor Kani models intermediate disk states (DESIGN §6)",
@@ -57,9 +81,6 @@ NOT_APPLICABLE = {
     "C05": "not yet built in this revision (planned: U-raftindex)",
     "C09": "not yet built in this revision (planned: U-config*)",
     "C10": "not yet built in this revision (planned: U-configlistener/U-subscriber)",
-    "C11": "not yet built in this revision (planned: U-service)",
-    "C12": "not yet built in this revision (planned: U-service)",
-    "C13": "not yet built in this revision (planned: U-service)",
     "C14": "not yet built in this revision (planned: U-processrange)",
     "C16": "not yet built in this revision (planned: U-grpcauth)",
     "C17": "not yet built in this revision (planned: U-permission)",
